@@ -8,9 +8,12 @@ Property theorems about the model of the reflection codec (`TongoModel/Tlb/*`): 
 regenerated type descriptors. The tie to the Go code is translator X1/X2 + the correspondence check (props/C03.py).
 
 Scope of the theorems: every descriptor `T` with `wfTop env T` (decided per regenerated type: `wf_<T>` in
-TongoGen/TlbTypes.lean), every value in `inDom`. NOT covered (listed in the evidence): types containing a custom
-codec without a model (`opaque`), dictionaries other than the empty one (`dictE`, owned by C05) and the types
-pinned in harness/tlbx/nonwf.go. -/
+TongoGen/TlbTypes.lean), every value in `inDom`. Dictionaries (`dictE` = HashmapE, `dict` = Hashmap written inline)
+are part of the descriptors: their tree is C05's model (`Tongo.Hashmap.marshal` / `unmarshal`) over the value codec
+of the element descriptor, and their case of the induction is C05's `decode_encode_sorted` (`CodecOK_hashmapE`).
+NOT covered (listed in the evidence): types containing a custom codec without a model (`opaque`; among them
+dictionaries whose values are written position-dependently, i.e. inline SnakeData) and the types pinned in
+harness/tlbx/nonwf.go. -/
 namespace Tongo.Tlb.C03
 open Tongo Tongo.Tlb Tongo.Bits
 
@@ -40,7 +43,7 @@ theorem decode_encode_inline (env : Env) (hEnv : EnvWF env) (T : Ty) (hw : wfb e
       (NG env T → ∀ s : Slice, s.isLibrary = false → decode env fuel T (s.prepend xs rs) = .ok (v, s)) := by
   obtain ⟨xs, rs, hb, hrt⟩ := (Inv.all env hEnv primOK_of_proved fuel).enc T v b b' hw hd he
   refine ⟨xs, rs, hb, ?_, ?_⟩
-  · obtain ⟨s', hs', _⟩ := hrt {} rfl (Or.inr ⟨rfl, rfl⟩)
+  · obtain ⟨s', hs', _⟩ := hrt {} rfl (Or.inr ⟨rfl, rfl, rfl⟩)
     refine ⟨s', ?_⟩
     simpa [Slice.prepend] using hs'
   · intro hng s hs
@@ -188,13 +191,44 @@ theorem grams_orig_defect :
 
 /-- **signedcoins_roundtrip**, **msgaddress_roundtrip** (four constructors, anycast depth 1..30, extern length
 0..511), **snake_roundtrip** (any length, chaining over references) and the other hand-written codecs: the uniform
-statement `PrimOK p` for every inline codec (18); wallet.W5Actions, which occupies whole cells, is `w5_refOK`. -/
+statement `PrimOK p` for every inline codec (19); wallet.W5Actions, which occupies whole cells, is `w5_refOK`. -/
 theorem codec_ok (p : Prim) (hp : p.proved = true) : PrimOK p := primOK_of_proved p hp
 
 theorem signedcoins_roundtrip : PrimOK .signedCoins := primOK_signedCoins
 theorem msgaddress_roundtrip : PrimOK .msgAddress := primOK_msgAddress
 theorem snake_roundtrip : PrimOK .snake := primOK_snake
 theorem wallet_payload_roundtrip : PrimOK .payloadV1toV4 := primOK_payloadV1toV4
+
+/-- **CodecOK_hashmapE**: `tlb.HashmapE[K, V]` over ANY key descriptor with a fixed width (generated UintN / IntN /
+BitsN, wide integers, AddressWithWorkchain) and ANY well-formed value descriptor round-trips every in-domain map:
+keys listed in ascending order of their encoded bits (the order the decoder returns), values that fit a leaf. The
+proof instantiates C05's `decode_encode_sorted` / `encode_sorted_tree` with the value codec of `t`
+(`Lemmas/TlbGeneric.enc_dictE`, `Lemmas/TlbDictCore.dict_roundtrip`); it is not greedy: the decoder leaves what
+follows the `Maybe ^` untouched. -/
+theorem CodecOK_hashmapE (env : Env) (hEnv : EnvWF env) (k t : Ty) (hw : wfb env (.dictE k t) = true)
+    (fuel : Nat) (v : Val) (hd : inDom env fuel (.dictE k t) v = true) (b b' : Builder)
+    (he : encode env fuel (.dictE k t) v b = .ok b') :
+    ∃ xs rs, b' = b.app xs rs ∧
+      ∀ s : Slice, s.isLibrary = false → decode env fuel (.dictE k t) (s.prepend xs rs) = .ok (v, s) := by
+  obtain ⟨xs, rs, hb, _, hng⟩ := decode_encode_inline env hEnv (.dictE k t) hw fuel v hd b b' he
+  exact ⟨xs, rs, hb, hng ⟨1, rfl⟩⟩
+
+/-- **CodecOK_hashmap**: `tlb.Hashmap[K, V]` (the root edge written into the current cell, never empty) as the
+content of a cell: the round trip of C05 again, the decoder ignoring the type of the cell it reads from as long as
+it is neither pruned nor a library cell (`Hashmap.unmarshal_root_irrel`). -/
+theorem CodecOK_hashmap (env : Env) (hEnv : EnvWF env) (k t : Ty) (hw : wfb env (.dict k t) = true)
+    (fuel : Nat) (v : Val) (hd : inDom env fuel (.dict k t) v = true) (b' : Builder)
+    (he : encode env fuel (.dict k t) v Builder.empty = .ok b') :
+    ∃ rest, decode env fuel (.dict k t) (Slice.ofCell b'.toCell) = .ok (v, rest) :=
+  decode_encode env hEnv (.dict k t) (by simpa [wfTop, wfRefOf] using hw) fuel v hd b' he
+
+/-- the key descriptors a dictionary admits: exactly those with a fixed width -/
+theorem hashmap_key_widths :
+    keyWidth (.uint 32) = some 32 ∧ keyWidth (.int 32) = some 32 ∧ keyWidth (.bytes 32) = some 256 ∧
+    keyWidth (.prim (.bigUint 256)) = some 256 ∧ keyWidth (.prim (.bigInt 257)) = some 257 ∧
+    keyWidth (.prim .addrWc) = some 288 := by decide
+
+theorem addrWc_roundtrip : PrimOK .addrWc := primOK_addrWc
 
 /-- **vmstack_convention**: `decode (encode s) = ok s.reverse` — a VM stack given top-first (the way arguments are
 listed for `RunSmcMethod`) reads back bottom-first (the way results are returned), for every element type that is
